@@ -2,7 +2,7 @@
 import random
 from .. import gen, diff
 from ..real import Real
-from ..terms import V, A, C, L, NIL, I, term_vars
+from ..terms import V, A, C, L, NIL, I, term_vars, rprogram, snap_real
 from .common import result_from_diff, diff_replay
 
 PROPERTY = 'C09'
@@ -181,6 +181,56 @@ def gen_case(rng):
     return clauses, goals, vars_, g.c
 
 
+def long_lived_case(ctx, rng):
+    """ONE engine serves hundreds of requests that use once/1, call/N and findall/3 and mostly take only the first answer
+    (abandoning the rest): what it answers afterwards is what a fresh engine with the same program answers"""
+    real = ctx['real']
+    E = real.E
+    src = rprogram(list(FACTS) + [
+        (C('first', V('X')), ('call', C('once', C('foo', V('X'))))),
+        (C('viacall', V('X'), V('Y')), ('and', ('call', C('=', V('G'), A('bar'))), ('call', C('call', V('G'), V('X'), V('Y'))))),
+        (C('bag', V('L')), ('call', C('findall', V('X'), C('foo', V('X')), V('L')))),
+        (C('guarded', V('X')), ('or', ('then', ('call', C('call', C('foo', V('X')))), ('true',)), ('fail',))),
+        (C('neg', V('X')), ('and', ('call', C('one', V('X'))), ('not', ('call', C('call', A('no')))))),
+    ])
+    code = real.compile(src)
+    probes = [('first', 1), ('viacall', 2), ('bag', 1), ('guarded', 1), ('neg', 1)]
+
+    def answers(yp):
+        out = []
+        for name, n in probes:
+            vs = [yp.variable() for _ in range(n)]
+            out.append([snap_real(E, vs) for _ in yp.query(name, vs)])
+        g = yp.query('call', [yp.atom('foo'), yp.variable()])
+        out.append(sum(1 for _ in g))
+        return out
+    fresh = answers(real.engine(code))
+    yp = real.engine(code)
+    nreq = rng.choice([60, 300, 520, 1100])
+    for i in range(nreq):
+        k = i % 4
+        v = yp.variable()
+        if k == 0:
+            q = yp.query('first', [v])
+        elif k == 1:
+            q = yp.query('call', [yp.atom('foo'), v])
+        elif k == 2:
+            q = yp.query('guarded', [v])
+        else:
+            q = yp.query('once', [yp.functor('bar', [yp.variable(), v])])
+        next(q, None)          # the host takes the first answer ...
+        if i % 3:
+            q.close()          # ... and abandons the rest (closed, or just dropped)
+        del q
+    aged = answers(yp)
+    c = {'long_lived_engines': 1, 'requests_served_before_the_probe': nreq}
+    r = {'c': c, 'nt': True, 'key': ('long_lived', nreq)}
+    if aged != fresh:
+        r['v'] = {'kind': 'answers_of_a_long_lived_engine_differ_from_a_fresh_one', 'detail': {'requests_served': nreq, 'fresh': fresh, 'aged': aged},
+                  'witness': {'program': src, 'requests': nreq}}
+    return r
+
+
 def _finish(ctx, d, counters, key):
     nt = False
     sample = None
@@ -253,6 +303,8 @@ def run_case(ctx, seed, idx, tier):
     rng = random.Random((seed * 1000003 + idx) * 7 + 9)
     if idx % 10 == 9:
         return case_reload(ctx, rng)
+    if idx % 250 == 7:
+        return long_lived_case(ctx, rng)
     clauses, goals, vars_, c = gen_case(rng)
     c = dict(c)
     r = rng.random()
